@@ -3,6 +3,7 @@ package main
 
 import (
 	"encoding/json"
+	"go/token"
 	"fmt"
 	"os"
 	"path/filepath"
@@ -71,6 +72,7 @@ func runOnly(id, tier string) (c *Ctx, expl string, err error) {
 		return nil, "", fmt.Errorf("unknown property %s", id)
 	}
 	c = newCtx(id, tier)
+	sharedFset = token.NewFileSet()
 	defer func() {
 		if r := recover(); r != nil {
 			err = fmt.Errorf("checker panic: %v\n%s", r, debug.Stack())
